@@ -58,6 +58,34 @@ def _uses_pow2(e):
 
 # ---------------------------------------------------------------- context
 
+import os as _os
+
+# Solver budgets.  A budget of `ms` milliseconds is enforced as z3's deterministic
+# resource limit (rlimit, a count of solver steps: about RL_PER_MS per millisecond
+# on an idle core of this sandbox), with a wall-clock limit WALL_FACTOR times larger
+# as a backstop only.  Outcomes of the many small validity / feasibility queries
+# made while a path is explored (is this shift count < 64? is this branch
+# feasible?) therefore do not depend on how busy the machine is: a starved
+# process gets the same answers, later.  (With wall-clock budgets a trivially
+# valid 0.5 s query timed out under 4x CPU oversubscription, the path took a
+# different shape and an unmodelled operation surfaced as a spurious refutation.)
+RL_PER_MS = 6000
+WALL_FACTOR = 8
+
+
+FEAS_WALL_FACTOR = 2   # branch-feasibility queries: over sequences the usual answer is
+#                        `unknown` (= feasible) at the limit, and z3's sequence solver counts
+#                        few rlimit steps per second, so a large backstop is all cost, no benefit
+
+
+def set_budget(solver, ms, wall_factor=None):
+    solver.set("rlimit", int(ms) * RL_PER_MS)
+    solver.set("timeout", int(ms) * (wall_factor or WALL_FACTOR))
+
+
+_TRACE_SLOW =float(_os.environ["PYVC_TRACE_SLOW"]) if _os.environ.get("PYVC_TRACE_SLOW") else None
+
+
 class Ctx:
     """State of one explored path."""
 
@@ -80,9 +108,9 @@ class Ctx:
         self._solver_n = 0
 
     # -- solver helpers
-    def _mk_solver(self, exprs, timeout=None):
+    def _mk_solver(self, exprs, timeout=None, wall_factor=None):
         s = z3.Solver()
-        s.set("timeout", timeout or self.timeout_ms)
+        set_budget(s, timeout or self.timeout_ms, wall_factor)
         need_pow2 = any(_uses_pow2(e) for e in exprs)
         if need_pow2:
             for a in POW2_AXIOMS:
@@ -91,23 +119,27 @@ class Ctx:
             s.add(a)
         return s
 
-    def check(self, *extra, timeout=None):
+    def check(self, *extra, timeout=None, wall_factor=None):
         """sat / unsat / unknown of pc + extra."""
         import time
         t0 = time.time()
         exprs = list(self.pc) + list(extra)
-        s = self._mk_solver(exprs, timeout)
+        s = self._mk_solver(exprs, timeout, wall_factor)
         for e in exprs:
             s.add(e)
         r = s.check()
         self.solver_calls += 1
         self.solver_time += time.time() - t0
+        if _TRACE_SLOW is not None and time.time() - t0 > _TRACE_SLOW:
+            import sys
+            sys.stderr.write("SLOW-PATH-CHECK %.2fs %s budget=%s: %s\n" % (
+                time.time() - t0, r, timeout or self.timeout_ms, " & ".join(str(x)[:120] for x in extra).replace("\n", " ")))
         return r, s
 
     def feasible(self, e):
         # unknown counts as feasible (sound: an infeasible path only yields
         # obligations that are vacuously provable)
-        r, _ = self.check(e, timeout=self.feas_timeout_ms)
+        r, _ = self.check(e, timeout=self.feas_timeout_ms, wall_factor=FEAS_WALL_FACTOR)
         return r != z3.unsat
 
     def valid(self, e):
